@@ -4,6 +4,7 @@ import CifModel.Lemmas.StoreCodec
 import CifModel.Lemmas.StoreTotalS
 import CifModel.Lemmas.StoreQuiet
 import CifModel.Lemmas.Walk
+import CifModel.Lemmas.StoreRefineQ
 /-
   Lemmas/StoreReadPaths (group gY, property C07) — what the two packet-delivering read paths of Model/StoreRead hand to the caller:
 
@@ -368,6 +369,31 @@ theorem handleFor_of_itemLoop (d : Db) (hinv : Inv d) (cid : Nat) (k : Str) (l :
   simp only [this]
   simp
 
+/-- SET_ALL_VALUES_SQL does not change which packets the item's loop has -/
+theorem loopRows_setAllValues (d : Db) (cid : Nat) (k : Str) (v : V) (ln : Nat) (hl : d.loopOfItem cid k = some ln) :
+    (d.setAllValues cid k v).1.loopRows cid ln = d.loopRows cid ln := by
+  apply sorted_eq_of_mem_iff _ _ (loopRows_sorted _ _ _) (loopRows_sorted _ _ _)
+  intro r
+  have hitem := loopOfItem_mem d cid k ln hl
+  have hitems : (d.setAllValues cid k v).1.loopItems cid ln = d.loopItems cid ln := by
+    simp only [Db.setAllValues, hl, Db.loopItems]
+  have hvals : (d.setAllValues cid k v).1.values
+      = d.values.filter (fun w => !(w.cid == cid && w.name == k && (d.loopRows cid ln).contains w.rowNum))
+        ++ (d.loopRows cid ln).map (fun r => { cid := cid, name := k, rowNum := r, val := v }) := by
+    simp only [Db.setAllValues, hl]
+  rw [mem_loopRows_iff, mem_loopRows_iff, hitems, hvals]
+  constructor
+  · rintro ⟨w, hw, hc, hany, hr⟩
+    rcases List.mem_append.mp hw with hw | hw
+    · exact ⟨w, (List.mem_filter.mp hw).1, hc, hany, hr⟩
+    · obtain ⟨r', hr', rfl⟩ := List.mem_map.mp hw
+      simp only at hr
+      subst hr
+      exact (mem_loopRows_iff _ _ _ _).mp hr'
+  · intro hex
+    have hr : r ∈ d.loopRows cid ln := (mem_loopRows_iff _ _ _ _).mpr hex
+    exact ⟨{ cid := cid, name := k, rowNum := r, val := v }, List.mem_append.mpr (Or.inr (List.mem_map.mpr ⟨r, hr, rfl⟩)), rfl, hitem, rfl⟩
+
 /-- the state a storing call leaves, as far as the read paths care: it satisfies the store invariants, no transaction is open, and the
     cell (container, item, row) holds `v` -/
 structure Stored (s : Store) (cid : Nat) (k : Str) (row : Nat) (v : V) : Prop where
@@ -425,5 +451,37 @@ theorem Stored.walk {s : Store} {cid : Nat} {k : Str} {row : Nat} {v : V} (h : S
 theorem wcontOf_block_mem (s : Store) (hB : CH) (bs : List CH) (hbs : (allBlocks s).2 = .ok bs) (hm : hB ∈ bs) :
     wcontOf s (s.db.frames.length + 1) hB ∈ wcifOf s := by
   unfold wcifOf; rw [hbs]; exact List.mem_map.mpr ⟨hB, hm, rfl⟩
+
+/-- one step down the container tree: a save frame the parent's cif_container_get_all_frames hands out -/
+theorem wcontOf_frame_step (s : Store) (fuel : Nat) (hP hF : CH) (fs : List CH) (h : (allFrames s hP).2 = .ok fs) (hm : hF ∈ fs)
+    {C : WCont} (hin : InCont C (wcontOf s fuel hF)) : InCont C (wcontOf s (fuel + 1) hP) := by
+  unfold wcontOf
+  rw [h]
+  exact InCont.frame (List.mem_map.mpr ⟨hF, hm, rfl⟩) hin
+
+/-- a chain of save frames below `p`: each one among the frames cif_container_get_all_frames reports for the one before -/
+def FrameChain (s : Store) : CH → List CH → Prop
+  | _, [] => True
+  | p, f :: fs => (∃ l, (allFrames s p).2 = .ok l ∧ f ∈ l) ∧ FrameChain s f fs
+
+/-- the node of the last frame of a chain lies in or below the node of the container the chain starts from (the walker's fuel permitting) -/
+theorem inCont_of_chain (s : Store) (fuel : Nat) : ∀ (path : List CH) (p : CH), FrameChain s p path →
+    InCont (wcontOf s fuel (path.getLast?.getD p)) (wcontOf s (fuel + path.length) p)
+  | [], p, _ => InCont.here _
+  | f :: fs, p, h => by
+    obtain ⟨⟨l, hl, hm⟩, hrest⟩ := h
+    have ih := inCont_of_chain s fuel fs f hrest
+    have hlast : (f :: fs).getLast?.getD p = fs.getLast?.getD f := by
+      cases fs with
+      | nil => rfl
+      | cons g gs =>
+        simp only [List.getLast?_cons_cons]
+        cases hg : (g :: gs).getLast? with
+        | none => simp at hg
+        | some z => rfl
+    rw [hlast]
+    have : fuel + (f :: fs).length = (fuel + fs.length) + 1 := by simp; omega
+    rw [this]
+    exact wcontOf_frame_step s _ p f l hl hm ih
 
 end CifModel.Store
